@@ -448,6 +448,37 @@ def run_pipeline(case, exact=False, jitter=0.0):
     return res
 
 
+def run_estimator(case):
+    """matcher -> initial estimator only (no solver).  {'outcome', 'n_matched', 'n_cleaned', 'guess_bs', 'guess_cf'}:
+    worst (position, rotation) error of the initial estimate against the truth in the frame of the first kept sample."""
+    import warnings
+    from cflib.localization.lighthouse_sample_matcher import LighthouseSampleMatcher
+    from cflib.localization.lighthouse_initial_estimator import LighthouseInitialEstimator
+    from cflib.localization.lighthouse_types import LhDeck4SensorPositions
+    res = {'outcome': 'ok'}
+    with warnings.catch_warnings():
+        warnings.simplefilter('ignore')
+        try:
+            matched = LighthouseSampleMatcher.match(measurements(case), max_time_diff=case.get('max_time_diff', 0.02),
+                                                    min_nr_of_bs_in_match=case.get('min_bs', 2))
+            res['n_matched'] = len(matched)
+            guess, cleaned = LighthouseInitialEstimator.estimate(matched, LhDeck4SensorPositions.positions)
+        except Exception as e:  # noqa
+            return dict(res, outcome='raised', exc=type(e).__name__, msg=str(e)[:160])
+    res['n_cleaned'] = len(cleaned)
+    t_first = [case['t0'][k] + case['dt'][k][0] for k in range(len(case['cf']))]
+    kept = [min(range(len(t_first)), key=lambda k: abs(t_first[k] - smp.timestamp)) for smp in cleaned]
+    if not kept or len(guess.cf_poses) != len(kept):
+        return dict(res, guess_bs=[float('inf')] * 2, guess_cf=[float('inf')] * 2)
+    bs_t, cf_t = ground_truth(case, kept[0])
+    eb = [pose_error(bs_t[int(b)], p) for b, p in guess.bs_poses.items()]
+    ec = [pose_error(cf_t[kept[j]], p) for j, p in enumerate(guess.cf_poses)]
+    res['guess_bs'] = [max(e[0] for e in eb), max(e[1] for e in eb)]
+    res['guess_cf'] = [max(e[0] for e in ec), max(e[1] for e in ec)]
+    res['ids'] = sorted(int(b) for b in guess.bs_poses)
+    return res
+
+
 def expected_ids(case):
     """Stations seen in at least one group of >= 2 distinct stations (what the matcher with min_bs = 2 passes on)."""
     out = set()
@@ -455,6 +486,98 @@ def expected_ids(case):
         if len(set(s)) >= case.get('min_bs', 2):
             out.update(int(b) for b in s)
     return sorted(out)
+
+
+EPS_TRUE = 1e-3     # a candidate counts as "true" when within 1 mm (/ 1 mrad) of the ground truth
+
+
+def decision_premise(case):
+    """Evaluate, from the ground truth, the premises of the Coq theorems C09_vote_sufficient_partial and
+    C09_choose_sufficient_partial on the candidates the REAL IPPE delivers for this room (bucketing re-implemented here,
+    independent of the estimator: first reference within accept_radius 0.8, 4 buckets, references = first sample's
+    candidates).  Returns {'holds': bool, 'why': first violated premise or None, 'pairs': n, 'choices': n}."""
+    import warnings
+    import numpy as np
+    from cflib.localization.ippe_cf import IppeCf
+    from cflib.localization.lighthouse_initial_estimator import LighthouseInitialEstimator as E
+    from cflib.localization.lighthouse_sample_matcher import LighthouseSampleMatcher
+    from cflib.localization.lighthouse_types import LhDeck4SensorPositions
+    S = LhDeck4SensorPositions.positions
+    RADIUS, OUTLIER = 0.8, 0.5
+    with warnings.catch_warnings():
+        warnings.simplefilter('ignore')
+        matched = LighthouseSampleMatcher.match(measurements(case), max_time_diff=case.get('max_time_diff', 0.02),
+                                                min_nr_of_bs_in_match=case.get('min_bs', 2))
+        bs = {int(b): _pose(v) for b, v in case['bs'].items()}
+        cfs = [_pose(v) for v in case['cf']]
+        t_first = [case['t0'][k] + case['dt'][k][0] for k in range(len(case['cf']))]
+        sols = []          # per sample: {id: [pose, pose]}, and which of them are true
+        for smp in matched:
+            k = min(range(len(t_first)), key=lambda i: abs(t_first[i] - smp.timestamp))
+            d = {}
+            for b, ang in smp.angles_calibrated.items():
+                est = E._convert_estimates_to_cf_reference_frame(IppeCf.solve(S, ang.projection_pair_list()))
+                truth = cfs[k].inv_rotate_translate_pose(bs[int(b)])
+                d[int(b)] = [(p, max(pose_error(truth, p)) < EPS_TRUE) for p in est]
+            sols.append(d)
+    out = {'holds': True, 'why': None, 'pairs': 0, 'choices': 0}
+
+    def fail(why):
+        if out['holds']:
+            out['holds'], out['why'] = False, why
+    # ---- vote premise per station pair
+    expected = {}
+    pairs = {}
+    for d in sols:
+        ids = sorted(d)
+        for a in range(len(ids)):
+            for b in range(a + 1, len(ids)):
+                i, j = ids[a], ids[b]
+                cands = [(pi.inv_rotate_translate_pose(pj).translation, ti and tj) for pi, ti in d[i] for pj, tj in d[j]]
+                pairs.setdefault((i, j), []).append(cands)
+    for (i, j), lists in pairs.items():
+        out['pairs'] += 1
+        true_rel = bs[i].inv_rotate_translate_pose(bs[j]).translation
+        refs = [c for c, _ in lists[0]]
+        buckets = [[], [], [], []]
+        for cands in lists:
+            for c, _t in cands:
+                for r in range(len(refs)):
+                    if np.linalg.norm(c - refs[r]) < RADIUS:
+                        buckets[r].append(c)
+                        break
+        is_true = [[bool(np.linalg.norm(c - true_rel) < EPS_TRUE) for c in b] for b in buckets]
+        homes = [r for r in range(4) if any(is_true[r])]
+        n_true_all = sum(1 for cands in lists for c, _t in cands if np.linalg.norm(c - true_rel) < EPS_TRUE)
+        if len(homes) != 1 or sum(is_true[homes[0]]) != n_true_all:
+            fail('vote: the true candidates of pair (%d, %d) do not fall into one bucket' % (i, j))
+            continue
+        h = homes[0]
+        for r in range(4):
+            if not all(is_true[r]) and not len(buckets[r]) < len(buckets[h]):
+                fail('vote: bucket %d of pair (%d, %d) holds a non-true candidate and %d >= %d entries of the true bucket %d'
+                     % (r, i, j, len(buckets[r]), len(buckets[h]), h))
+        expected[(i, j)] = np.mean(buckets[h], axis=0)
+    # ---- choice premise per sample and (first, other)
+    for d in sols:
+        ids = sorted(d)
+        for o in ids[1:]:
+            f = ids[0]
+            if (f, o) not in expected:
+                continue
+            out['choices'] += 1
+            e = expected[(f, o)]
+            dist = [(float(np.linalg.norm(e - p1.inv_rotate_translate_pose(p2).translation)), t1 and t2)
+                    for p1, t1 in d[f] for p2, t2 in d[o]]
+            dt = [x for x, t in dist if t]
+            dn = [x for x, t in dist if not t]
+            if not dt:
+                fail('choice: IPPE delivered no true pair for stations (%d, %d) in a sample' % (f, o))
+            elif dn and not max(dt) < min(dn):
+                fail('choice: a non-true pair of (%d, %d) is as near to the voted position as a true pair' % (f, o))
+            elif not max(dt) <= OUTLIER:
+                fail('choice: a true pair of (%d, %d) fails the outlier test' % (f, o))
+    return out
 
 
 def vote_diagnosis(case):
@@ -560,6 +683,33 @@ def judge(case, res):
         #  initial estimate is not held against the code)
         return (pre + 'solver_reports_failure_on_right_answer', 'success', obs, '')
     return None
+
+
+def judge_with_premise(case, res):
+    """judge() plus the premise of the decision-logic theorems evaluated from the truth (unpatched runs of linked
+    rooms only).  premise holds  => the estimator must be right: any failure becomes `premise_holds_but_estimator_wrong`
+    (never a known finding); premise fails => known-finding territory (classes of judge(), and a rejected linked system
+    is attributed to the discarded samples).  Returns (judgement or None, premise dict or None)."""
+    j = judge(case, res)
+    if res.get('exact_ippe') or len(linked_components([s for s in case['vis'] if len(set(s)) >= 2])) > 1:
+        return j, None
+    try:
+        pr = decision_premise(case)
+    except Exception as e:  # noqa
+        pr = {'holds': None, 'why': 'premise could not be evaluated: %r' % (e,), 'pairs': 0, 'choices': 0}
+    if j and pr['holds'] is True:
+        obs = j[2] if isinstance(j[2], dict) else {'observed': j[2]}
+        obs = dict(obs, class_without_premise=j[0], premise=pr)
+        return ('premise_holds_but_estimator_wrong', j[1], obs,
+                'the premises of C09_vote_sufficient_partial / C09_choose_sufficient_partial hold for every station pair '
+                'and sample of this room (evaluated from the truth), so the decision logic must pick the true candidates; '
+                + str(j[3])), pr
+    if j and pr['holds'] is False:
+        if j[0] == 'linked_system_rejected':
+            return ('linked_system_rejected_links_discarded', j[1], j[2], str(j[3]) + '; premise violated: ' + str(pr['why'])), pr
+        if isinstance(j[2], dict):
+            j[2]['premise_violated'] = pr['why']
+    return j, pr
 
 
 def sub_case(case, keep_cf, keep_bs):
